@@ -4,6 +4,7 @@ pub mod c02;
 pub mod c03;
 pub mod c09;
 pub mod c10;
+pub mod c18;
 
 pub struct Check {
     pub id: &'static str,
@@ -32,6 +33,11 @@ pub fn lookup(id: &str) -> Option<Check> {
             id: "C10",
             level: "exploration",
             run: c10::run,
+        },
+        Check {
+            id: "C18",
+            level: "exploration",
+            run: c18::run,
         },
     ];
     all.into_iter().find(|c| c.id == id)
